@@ -409,7 +409,11 @@ fn guts_case(args: &Args, idx: u64, rng: &mut Rng, rep: &mut Report) {
     let data = gen::content(rng, n);
     // is_root is only defined for chunk 0 (the only root chunk the specification has)
     let root = rng.chance(1, 3);
-    let (counter, cname) = if root { (0, "zero") } else { counter_class(rng, 0) };
+    // Debug builds of the crate guard root finalisation of a chunk with a non-zero counter with a
+    // debug_assert (documented misuse check), so that combination is only exercised in release
+    // builds, where the root hash is the specification's root compression (output block 0) of
+    // that chunk's final block.
+    let (counter, cname) = if root && (cfg!(debug_assertions) || rng.chance(1, 2)) { (0, "zero") } else { counter_class(rng, 0) };
     let node = specmodel::chunk_node(&specmodel::IV, &data, counter, 0);
     let want = if root { node.root_hash() } else { node.cv_bytes() };
     rep.eval(format!("guts/chunk/{}/{}/{}", cname, n, root));
